@@ -86,6 +86,69 @@ theorem C15_convenience (I : Inp K) (data : Nat → K) (i : Nat) (hi : i < I.n) 
   simp only [dotCoo_gradAdj I _ _ i hi]
   rfl
 
+/-! ### translation invariance (the metamorphic relation of the oracle's stream `translated`) -/
+
+/-- the same input with every vertex position translated by `t` (same graph, same weights: the weights of the real
+    code are functions of distances and of translation-invariant volumes) -/
+def translate (I : Inp K) (t : V3 K) : Inp K := { I with pos := fun j => V3.add (I.pos j) t }
+
+theorem dvec_translate (I : Inp K) (t : V3 K) (i j : Nat) : dvec (translate I t) i j = dvec I i j := by
+  apply v3_ext <;> simp [dvec, translate, V3.sub, V3.add]
+
+theorem offRow_translate (I : Inp K) (t : V3 K) (i : Nat) : offRow (translate I t) i = offRow I i := by
+  have hs : ∀ j, sq (translate I t) i j = sq I i j := by
+    intro j; simp only [Gradient.sq, dvec_translate]; rfl
+  have hm : momentAt (translate I t) i = momentAt I i := by
+    simp only [momentAt, dvec_translate, hs]; rfl
+  have hw : sumW (translate I t) i = sumW I i := rfl
+  unfold offRow
+  simp only [hm, hs, hw, dvec_translate]
+  rfl
+
+/-- **C15, translation invariance.**  The operator is a function of the differences `x_j − x_i` only: translating every
+    vertex by the same vector `t` changes neither any row of the three matrices nor what the convenience functions
+    return for any data, for every variant (moment matrix or not, any neighbour lists, any weights).  This is an
+    identity over every field; in binary64 the two sides differ by the conditioning of the differences
+    (`ulp(max|x|) / |x_j − x_i|`), which is what the oracle's stream `translated` measures on the real code — a
+    formula in absolute positions that is *equal over ℚ* (e.g. the expanded moment tensor, `C15_moment_expanded`)
+    passes this theorem and fails there. -/
+theorem C15_translation_invariant (I : Inp K) (t : V3 K) (data : Nat → K) (i : Nat) :
+    opRow (translate I t) i = opRow I i
+      ∧ spatialGradients (translate I t) data i = spatialGradients I data i := by
+  have hrow : ∀ i', opRow (translate I t) i' = opRow I i' := by
+    intro i'; unfold opRow; rw [offRow_translate]
+  have hg : ∀ k, gradAdj (translate I t) k = gradAdj I k := by
+    intro k; unfold gradAdj; simp only [hrow]; rfl
+  exact ⟨hrow i, by unfold spatialGradients; simp only [hg]⟩
+
+/-- **C15, why the exact model cannot see absolute-position formulas.**  Over every field the moment tensor
+    `Σ_j s_j (x_j − x_i) ⊗ (x_j − x_i)` equals its expansion in ABSOLUTE positions
+    `Σ_j s_j x_j ⊗ x_j − (Σ_j s_j x_j) ⊗ x_i − x_i ⊗ (Σ_j s_j x_j) + (Σ_j s_j) x_i ⊗ x_i`.
+    A rewrite of femio along this identity is invisible to any exact-rational comparison and loses
+    `(max|x| / h)²` in binary64; it is caught by the oracle on translated meshes only (seeded change C15-5). -/
+theorem C15_moment_expanded (s : Nat → K) (x : Nat → V3 K) (xi : V3 K) (l : List Nat) :
+    sumM (l.map fun j => msmul (s j) (outer (V3.sub (x j) xi) (V3.sub (x j) xi)))
+      = madd (madd (sumM (l.map fun j => msmul (s j) (outer (x j) (x j))))
+                   (msmul (-1) (madd (outer (sumV (l.map fun j => smul (s j) (x j))) xi)
+                                     (outer xi (sumV (l.map fun j => smul (s j) (x j)))))))
+             (msmul (sumR (l.map s)) (outer xi xi)) := by
+  induction l with
+  | nil =>
+    obtain ⟨a, b, c⟩ := xi
+    simp [madd, msmul, outer, mzero, vzero, V3.add, smul]
+  | cons h t ih =>
+    simp only [List.map_cons, sumM_cons, sumV_cons, sumR_cons, ih]
+    generalize sumM (t.map fun j => msmul (s j) (outer (x j) (x j))) = A
+    generalize sumV (t.map fun j => smul (s j) (x j)) = v
+    generalize sumR (t.map s) = r
+    obtain ⟨⟨a00, a01, a02⟩, ⟨a10, a11, a12⟩, ⟨a20, a21, a22⟩⟩ := A
+    obtain ⟨v0, v1, v2⟩ := v
+    obtain ⟨c0, c1, c2⟩ := xi
+    generalize x h = xh
+    obtain ⟨p0, p1, p2⟩ := xh
+    simp only [madd, msmul, outer, V3.add, V3.sub, smul, M3.mk.injEq, V3.mk.injEq]
+    refine ⟨⟨?_, ?_, ?_⟩, ⟨?_, ?_, ?_⟩, ⟨?_, ?_, ?_⟩⟩ <;> ring
+
 /-! ### non-vacuity: a boundary vertex (corner) with three neighbours and unequal weights -/
 
 /-- vertex 0 at the origin, neighbours at `(1,0,0)`, `(0,2,0)`, `(1,1,3)`; weights 1, 2, 5 -/
@@ -104,6 +167,17 @@ example : spatialGradients (I0 false) (fun _ => 11) 0 = vzero ∧ spatialGradien
   decide +kernel
 /-- without the correction the gradient of an affine field is *not* exact on this vertex -/
 example : spatialGradients (I0 false) (fun j => dot ⟨2, -3, 5⟩ ((I0 false).pos j) + 11) 0 ≠ ⟨2, -3, 5⟩ := by
+  decide +kernel
+
+/-- translation invariance on the corner example: every row and the gradient of a non-affine field are unchanged by a
+    large translation -/
+example : opRow (translate (I0 true) ⟨431250, 3912500, 128⟩) 0 = opRow (I0 true) 0
+    ∧ spatialGradients (translate (I0 false) ⟨431250, 3912500, 128⟩) (fun j => (j : ℚ) * j) 3
+        = spatialGradients (I0 false) (fun j => (j : ℚ) * j) 3 := by
+  decide +kernel
+/-- the expansion on concrete data (both sides are the same non-zero matrix) -/
+example : sumM ([1, 2, 3].map fun j => msmul ((I0 true).w 0 j) (outer (V3.sub ((I0 true).pos j) ⟨5, 7, 9⟩) (V3.sub ((I0 true).pos j) ⟨5, 7, 9⟩)))
+    ≠ (mzero : M3 ℚ) := by
   decide +kernel
 
 end Femio.C15
